@@ -1307,13 +1307,15 @@ class H2Stream:
         pipeline on them to transform them into the appropriate form for
         attaching to an event.
         """
+        # Validate what the peer actually sent, then normalize it: joining the
+        # cookie fields first would hide (or create) surrounding whitespace.
+        if self.config.validate_inbound_headers:
+            headers = validate_headers(headers, header_validation_flags)
+
         if self.config.normalize_inbound_headers:
             headers = normalize_inbound_headers(
                 headers, header_validation_flags
             )
-
-        if self.config.validate_inbound_headers:
-            headers = validate_headers(headers, header_validation_flags)
 
         if header_encoding:
             headers = _decode_headers(headers, header_encoding)
